@@ -93,7 +93,8 @@ class Contract:
                  must_raise=(), mutates=(), returns_alias=None, loops=None, locals=None,
                  mode='full', tracked=(), properties=(), self_type=None, lemmas=(),
                  min_obligations=1, trusted=False, note='', unexpected_exceptions='obligation',
-                 decreases=None, ghost=None, inline_asserts=None, skip=False):
+                 decreases=None, ghost=None, inline_asserts=None, skip=False,
+                 native=None, assumptions=()):
         self.qualname = qualname
         self.params = dict(params or {})
         self.returns = returns
@@ -116,6 +117,8 @@ class Contract:
         self.unexpected_exceptions = unexpected_exceptions
         self.ghost = dict(ghost or {})
         self.inline_asserts = dict(inline_asserts or {})
+        self.native = native
+        self.assumptions = list(assumptions)
         self._parsed = {}
 
     def fn_node(self):
